@@ -252,3 +252,49 @@ func clDeltaRestoreFrees(c *Ctx) {
 		c.Check(false, fn, nil, "delta items are inserted with the duplicate-rejecting insert", "the delta phase no longer inserts items through Insert2/Insert3")
 	}
 }
+
+// The builder used by LoadFromDisk accounts items with the store's item size
+// function from the first node on (Segment.Add adds Size(node)+ItemSize(item)
+// to usedBytes; helpDelete later subtracts with the store's function).
+func clRestoreItemSize(c *Ctx) {
+	p := c.P
+	fn := p.Func("nitro", "Nitro", "LoadFromDisk")
+	fi := p.Info(fn)
+	setSize := p.Func("skiplist", "Builder", "SetItemSizeFunc")
+	newBuilder := p.Func("skiplist", "", "NewBuilderWithConfig")
+	itemSize := p.Func("nitro", "", "ItemSize")
+	var set ssa.Instruction
+	for _, s := range p.CallSites(fn, setSize) {
+		if f, ok := strip(callOf(s).Args[1]).(*ssa.Function); ok && f == itemSize {
+			set = s
+		}
+	}
+	nb := p.firstCall(fn, newBuilder)
+	if !c.Check(set != nil && nb != nil && strip(callOf(set).Args[0]) == nb.(ssa.Value), fn, set, "restore builder is given the item size function", "restored nodes are accounted without their items: MemoryInUse under-reports after a restore and goes negative when the restored items are collected") {
+		return
+	}
+	// before any loader goroutine can add a node
+	early := true
+	for _, in := range fi.Instrs {
+		if _, isGo := in.(*ssa.Go); isGo && !fi.Dominates(set, in) {
+			early = false
+		}
+	}
+	c.Check(early, fn, set, "item size function installed before the loaders start adding nodes", "nodes added before the size function is installed are accounted with item size 0")
+	// the instance's own stores use the same function
+	isf := p.Func("nitro", "Nitro", "initSizeFuns")
+	fStore := p.Field("nitro", "Nitro", "store")
+	setI := p.Func("skiplist", "Config", "SetItemSizeFunc")
+	ok := false
+	for _, s := range p.CallSites(isf, setI) {
+		if f, okf := strip(callOf(s).Args[1]).(*ssa.Function); okf && f == itemSize {
+			chain, _ := fieldPath(callOf(s).Args[0])
+			for _, fv := range chain {
+				if fv == fStore {
+					ok = true
+				}
+			}
+		}
+	}
+	c.Check(ok, isf, nil, "the instance's item store uses the same item size function", "insert-side and unlink-side accounting use different item sizes")
+}
